@@ -2,8 +2,10 @@
 Lemmas/ScopeGen.lean — the tables regenerated from the Rust text (`Gen/Scope.lean`, `Gen/ByteCode.lean`)
 against the hand-written model `Model/Scope.lean`.  An edit to `SymbolState`, to a transition of
 `Symbol`, to the capture-marking guard of the resolver, to the de-duplication or the bound of
-`add_capture`, to the constructors used by `resolve_capture`, to the arms of `op_closure` or to the
-stack effect of a box/capture instruction re-opens one of these.
+`add_capture`, to the constructors used by `resolve_capture`, to the arms of `op_closure`, to the
+stack effect of a box/capture instruction, or to the path that gives a declared variable its first value
+(`Compiler::let_`/`Resolver::let_`, the box instructions of `declare_/define_local_variable`,
+`define_module_variable`, the content of an empty box, `op_fill_box`) re-opens one of these.
 -/
 import LaytheVerif.Gen.Scope
 import LaytheVerif.Gen.ByteCode
@@ -53,6 +55,32 @@ theorem gen_op_closure :
       [("Local", "(*self.fiber.stack_start().offset(index as isize)) .to_obj() .to_box()"),
        ("Enclosing", "self.fiber.captures().get_capture(index as usize)")] := by decide
 
+/-- [G] `comp (.letS d x e)` / `comp (.letN d x)`: `Compiler::let_` is `declare_variable`, then the initialiser **or
+`Nil`** (exactly two arms, no guard: the `Nil` is emitted whatever state `declare_variable` returned), then
+`define_variable` with that state — unconditionally; `res (.letN d x)`: `Resolver::let_` declares, resolves the
+initialiser if there is one, defines. -/
+theorem gen_let :
+    Gen.Scope.letValueArms =
+      [("Some(v)", "self.expr(v)"), ("None", "self.emit_byte(SymbolicByteCode::Nil, let_.name.end())")] ∧
+    Gen.Scope.letSkeleton =
+      ["let (var_state, name_slot) = self.declare_variable(let_.name.str(), let_.span())",
+       "match &let_.value {…} self.define_variable(let_.name.str(), var_state, let_.span())", "name_slot"] ∧
+    Gen.Scope.resolverLet =
+      "self.declare_variable(&let_.name); if let Some(v) = &mut let_.value { self.expr(v) } self.define_variable(&let_.name);" := by
+  decide
+
+/-- [G] `CS.declareLocal` (`EmptyBox` for a captured symbol), `CS.defineVariable` (`FillBox` for a captured local — and
+nothing else —, `SetModSym` for a module symbol), `Machine.opEmptyBox` (the new box holds `undef`, so it is the
+`Nil; FillBox` of `let_` that makes `let x;` nil) and `Machine.opFillBox` (the popped value goes into the box below it) -/
+theorem gen_declare_define :
+    Gen.Scope.declareLocalBoxOp = "EmptyBox" ∧
+    Gen.Scope.defineLocalBody = "if let SymbolState::LocalCaptured = state { self.emit_byte(SymbolicByteCode::FillBox, span.end); }" ∧
+    Gen.Scope.defineModuleOps = ["SetModSym", "Drop"] ∧
+    Gen.Scope.emptyBoxValue = "VALUE_UNDEFINED" ∧
+    Gen.Scope.opEmptyBox = "let value = val!(self.manage_obj(LyBox::default())); self.fiber.push(value); ExecutionSignal::Ok" ∧
+    Gen.Scope.opFillBox = "let value = self.fiber.pop(); self.fiber.peek(0).to_obj().to_box().value = value; ExecutionSignal::Ok" := by
+  decide
+
 /-- the stack discipline the machine's `declareSlot`/`defineSlot` assume: `EmptyBox` pushes the box,
 `FillBox` pops the value below which the box stays, `Box` works in place, reads push, writes keep the
 value, `Closure` pushes the closure and its `CaptureIndex` operands are pure operands -/
@@ -63,5 +91,8 @@ theorem gen_stack_effects (s : Nat) (c : Gen.CaptureIndex) :
     Gen.Sym.stackEffect (.GetLocal s) = 1 ∧ Gen.Sym.stackEffect (.SetLocal s) = 0 ∧
     Gen.Sym.stackEffect (.Closure s) = 1 ∧ Gen.Sym.stackEffect (.CaptureIndex c) = 0 := by
   refine ⟨rfl, rfl, rfl, rfl, rfl, rfl, rfl, rfl, rfl, rfl, rfl⟩
+
+/-- `Nil` pushes the value that `FillBox` pops / `SetModSym` assigns / stays in the new local's slot -/
+theorem gen_nil_stack_effect : Gen.Sym.stackEffect .Nil = 1 := rfl
 
 end LaytheVerif.Scope
